@@ -64,6 +64,15 @@ type c20ForeignCtx struct {
 
 func (f *c20ForeignCtx) Done() <-chan struct{} { return f.done }
 
+// c20YieldCtx is a context whose Done method yields the processor before it
+// answers (it stays a context-package context for cancellation propagation).
+type c20YieldCtx struct{ context.Context }
+
+func (y c20YieldCtx) Done() <-chan struct{} {
+	runtime.Gosched()
+	return y.Context.Done()
+}
+
 var c20Endings = []string{"Close", "CloseNow", "peer-close-then-Close", "protocol-error-then-CloseNow", "ctx-expiry-then-Close", "cut-eof-then-Close", "cut-err-then-CloseNow", "silent-peer-Close", "peer-close-then-CloseNow", "closeread-data-then-Close", "closeread-partial-data-stall-then-CloseNow", "closeread-partial-data-stall-then-Close", "write-error-then-CloseNow", "write-error-then-Close", "Close-unsendable-code", "Close-oversize-reason", "Close-and-CloseNow-together-peer-slow-and-silent", "closeread-data-behind-a-stalled-write-then-CloseNow", "closeread-data-silent-peer-ping-during-handshake-then-CloseNow", "closeread-data-peer-window-closed-then-CloseNow"}
 
 func runC20(r *Run) {
@@ -215,7 +224,24 @@ func runC20(r *Run) {
 		if p.closeRead {
 			uctx, cancel := context.WithCancel(bg)
 			crCancel = cancel
-			crCtx = c.CloseRead(uctx)
+			if (idx+p.writes+p.ending)%3 == 0 {
+				// two goroutines call CloseRead for the first time at once, with a context
+				// whose Done method gives the processor away (a context implementation of
+				// the application's own): the second caller runs while the first is inside
+				// the call. There must still be one reader goroutine, and it must be the
+				// one that Close and CloseNow wait for.
+				yctx := c20YieldCtx{uctx}
+				second := make(chan struct{})
+				go func() {
+					defer close(second)
+					c.CloseRead(yctx)
+				}()
+				crCtx = c.CloseRead(yctx)
+				<-second
+				r.S.Count("probe.two-first-closeread-calls-at-once")
+			} else {
+				crCtx = c.CloseRead(uctx)
+			}
 		}
 		var nc io.ReadWriteCloser
 		if p.netconn {
